@@ -180,7 +180,7 @@ def route(cx, chk, cfg, F, f, name):
     need = {"put": ("hit-recent", "hit-frequent", "ghost-hit-recent_evict", "ghost-hit-frequent_evict", "miss"), "get": ("hit-recent", "hit-frequent", "miss"),
             "get_mut": ("hit-recent", "hit-frequent", "miss")}[name]
     for k in need:
-        if counts.get(k, 0) < 1:
+        if ok and counts.get(k, 0) < 1:
             raise AnalysisError("C09: no %s path in %s (%s)" % (k, f["q"], cfg))
     if name == "put":
         # (choosing the recent list implies recent.len() > 0, so only the frequent -> recent direction can be needed)
